@@ -72,17 +72,19 @@ type image struct {
 }
 
 type exec struct {
-	ever     map[string]map[int64][]tsdbmodel.Sample // every sample a committed transaction carried, per series and timestamp (C04)
-	failArm  int                                     // block writes / compactions that fail next (injected "disk full")
-	starting bool                                    // inside the reopen of a restart: IO seen now belongs to the start-up of the next process lifetime
-	shardOf  map[string]uint64                       // C18: "<n>|<series>" -> shard index seen earlier in this run
-	delTimes map[string][]int64                      // C12: timestamps deleted so far, per series
-	t        *testing.T
-	prop     string
-	plan     *Plan
-	cfg      Config
-	res      *runner.Result
-	rng      *prng.R // oracle-side choices (query windows); never influences the SUT
+	cleaningTombstones bool                                    // inside DB.CleanTombstones (it removes rewritten blocks itself)
+	preReload          map[string]diskState                    // C09: directory state at the beginning of a block reload, per data dir
+	ever               map[string]map[int64][]tsdbmodel.Sample // every sample a committed transaction carried, per series and timestamp (C04)
+	failArm            int                                     // block writes / compactions that fail next (injected "disk full")
+	starting           bool                                    // inside the reopen of a restart: IO seen now belongs to the start-up of the next process lifetime
+	shardOf            map[string]uint64                       // C18: "<n>|<series>" -> shard index seen earlier in this run
+	delTimes           map[string][]int64                      // C12: timestamps deleted so far, per series
+	t                  *testing.T
+	prop               string
+	plan               *Plan
+	cfg                Config
+	res                *runner.Result
+	rng                *prng.R // oracle-side choices (query windows); never influences the SUT
 
 	root string
 	dir  string
@@ -236,6 +238,27 @@ func (e *exec) onEvent(name string, kv ...any) {
 			e.evReload = append(e.evReload, name)
 			if e.onReload != nil {
 				e.onReload(name)
+			}
+		}
+		if d, ok := kv[0].(string); ok && e.prop == "C09" && strings.HasPrefix(d, e.root) {
+			// the retention monitor follows every reload, also those of crash images being reopened
+			if name == "db.reloadBlocks.begin" {
+				if e.preReload == nil {
+					e.preReload = map[string]diskState{}
+				}
+				e.preReload[d] = scanDisk(d)
+			} else if pre, ok := e.preReload[d]; ok {
+				delete(e.preReload, d)
+				failed := len(kv) > 1 && kv[1] != nil
+				if err, isErr := kv[1].(error); isErr && err == nil {
+					failed = false
+				}
+				if !failed {
+					post := scanDisk(d)
+					e.mu.Unlock()
+					e.judgeRetention(d, pre, post)
+					e.mu.Lock()
+				}
 			}
 		}
 	}
@@ -1160,6 +1183,8 @@ func (e *exec) nonTrivial() bool {
 		return e.res.Counters["samples_deleted"] > 0 && e.compactions > 0 && e.restarts > 0
 	case "C52":
 		return e.res.Counters["counter_checks"] > 10 && e.restarts > 0
+	case "C09":
+		return e.res.Counters["reloads_with_removals"] > 0
 	case "C04":
 		return e.res.Counters["damage_repaired_opens"] > 0
 	case "C24":
@@ -1836,7 +1861,10 @@ func (e *exec) step(o Op) {
 		if e.failed {
 			break
 		}
-		if err := e.db.CleanTombstones(); err != nil {
+		e.cleaningTombstones = true
+		err := e.db.CleanTombstones()
+		e.cleaningTombstones = false
+		if err != nil {
 			e.fail("compact-error", "cleantomb-error", "op %d: CleanTombstones failed: %v", e.opIdx, err)
 			break
 		}
@@ -1904,7 +1932,7 @@ func (e *exec) step(o Op) {
 			return
 		}
 	}
-	if e.isMutating(o.K) && o.K != "restart" {
+	if e.isMutating(o.K) && o.K != "restart" && e.prop != "C09" {
 		e.verify(e.db, e.m, e.m, "query-vs-model", fmt.Sprintf("after op %d (%s)", e.opIdx, o.K), math.MinInt64)
 		if len(e.res.Violations) > 0 {
 			e.failed = true
@@ -2053,6 +2081,9 @@ func (e *exec) restart() {
 	e.m.Restarted()
 	e.m.OpenCutoff = replayCutoff(e.db)
 	e.oooCompactedThisEpoch = false
+	if e.prop == "C09" {
+		return
+	}
 	e.verify(e.db, e.m, e.m, "query-vs-model-after-restart", fmt.Sprintf("after restart at op %d", e.opIdx), math.MinInt64)
 	if len(e.res.Violations) > 0 {
 		e.failed = true
